@@ -698,7 +698,8 @@ func builtin_getattr(self py.Object, args py.Tuple) (py.Object, error) {
 
 	result, err = py.GetAttr(v, name)
 	if err != nil {
-		if dflt == nil {
+		// only a missing attribute is replaced by the default
+		if dflt == nil || !py.IsException(py.AttributeError, err) {
 			return nil, err
 		}
 		result = dflt
@@ -719,7 +720,14 @@ func builtin_hasattr(self py.Object, args py.Tuple) (py.Object, error) {
 		return nil, err
 	}
 	_, err = py.GetAttr(v, name)
-	return py.NewBool(err == nil), nil
+	if err != nil {
+		// only a missing attribute means "no" - anything else is an error
+		if py.IsException(py.AttributeError, err) {
+			return py.False, nil
+		}
+		return nil, err
+	}
+	return py.True, nil
 }
 
 const setattr_doc = `setattr(object, name, value)
@@ -968,7 +976,10 @@ func isinstance(obj py.Object, classOrTuple py.Object) (py.Bool, error) {
 	switch class_tuple := classOrTuple.(type) {
 	case py.Tuple:
 		for idx := range class_tuple {
-			res, _ := isinstance(obj, class_tuple[idx])
+			res, err := isinstance(obj, class_tuple[idx])
+			if err != nil {
+				return false, err
+			}
 			if res {
 				return res, nil
 			}
